@@ -610,6 +610,39 @@ class Node:
         )
 
 
+class MemoryFile:
+    """
+    File object of :py:class:`aioftp.MemoryPathIO`. The bytes belong to the
+    node, the position belongs to the file object, so that two files opened
+    on one node do not move each other.
+    """
+
+    def __init__(self, node, position=0):
+        self.node = node
+        self.position = position
+
+    def _content(self):
+        content = self.node.content
+        content.seek(self.position, io.SEEK_SET)
+        return content
+
+    def seek(self, offset, whence=io.SEEK_SET):
+        self.position = self._content().seek(offset, whence)
+        return self.position
+
+    def read(self, *args):
+        content = self._content()
+        data = content.read(*args)
+        self.position = content.tell()
+        return data
+
+    def write(self, data):
+        content = self._content()
+        count = content.write(data)
+        self.position = content.tell()
+        return count
+
+
 class MemoryPathIO(AbstractPathIO):
     """
     Non-blocking path io. Based on in-memory tree. It is just proof of concept
@@ -783,8 +816,9 @@ class MemoryPathIO(AbstractPathIO):
             node = self.get_node(path)
             if node is None:
                 raise FileNotFoundError
-            file_like = node.content
-            file_like.seek(0, io.SEEK_SET)
+            if node.type != "file":
+                raise IsADirectoryError
+            file_like = MemoryFile(node)
         elif mode in ("wb", "ab", "r+b"):
             node = self.get_node(path)
             if node is None:
@@ -793,18 +827,17 @@ class MemoryPathIO(AbstractPathIO):
                     raise FileNotFoundError
                 new_node = Node("file", path.name, content=io.BytesIO())
                 parent.content.append(new_node)
-                file_like = new_node.content
+                file_like = MemoryFile(new_node)
             elif node.type != "file":
                 raise IsADirectoryError
             else:
                 if mode == "wb":
-                    file_like = node.content = io.BytesIO()
+                    node.content = io.BytesIO()
+                    file_like = MemoryFile(node)
                 elif mode == "ab":
-                    file_like = node.content
-                    file_like.seek(0, io.SEEK_END)
+                    file_like = MemoryFile(node, len(node.content.getbuffer()))
                 elif mode == "r+b":
-                    file_like = node.content
-                    file_like.seek(0, io.SEEK_SET)
+                    file_like = MemoryFile(node)
         else:
             raise ValueError(f"invalid mode: {mode}")
         return file_like
